@@ -11,6 +11,7 @@ var Registry = map[string]func(tier string){
 	"C02": C02,
 	"C03": C03,
 	"C04": C04,
+	"C05": C05,
 	"C10": C10,
 	"C12": C12,
 	"C13": C13,
